@@ -205,7 +205,7 @@ reg("C08",
     level_note="Single faults (pairs of faults are not enumerated). The heap oracle is LeakSanitizer's reachability at exit per forked case, not allocator statistics.",
     harness=STATES + ["c08.c"],
     stages=[dict(variant="asan", cases={"quick": 3200, "thorough": 48000}, timeout={"quick": 900, "thorough": 3400}, leaks=True)],
-    floors={"quick": {"injections_fired": 1100, "rlimit_runs": 400, "fork_runs": 250, "cleanup_children_checked": 200, "owner_wakeup_after_cleanup_ok": 150, "burst_runs": 100, "end_state_checks": 3000, "api_failures": 1500,
+    floors={"quick": {"injections_fired": 1100, "rlimit_runs": 400, "fork_runs": 250, "cleanup_children_checked": 200, "owner_wakeup_after_cleanup_ok": 150, "forks_with_control_clients_attached": 40, "burst_runs": 100, "end_state_checks": 3000, "api_failures": 1500,
                       "scenarios_with_traffic": 800, "distinct_nontrivial": 1500},
             "thorough": {"injections_fired": 20000, "rlimit_runs": 5000, "fork_runs": 3000, "distinct_nontrivial": 6000}},
     rule="one evaluation = one scenario run with one fault (or one rlimit value, one burst, one fork step); distinct = distinct (transport, flavour, failing call, index, errno) sites whose injection fired, (transport, flavour, rlimit) and (transport, flavour, fork step) tuples",
